@@ -27,6 +27,8 @@ pub fn check(tier: Tier) -> Check {
         ));
     }
     parts.push(Part::new("C05/wide", json!({"n": 600}), 0, 120));
+    // the same exploration over a connection whose CONNECT / CONNACK carry everything else
+    parts.push(Part::new("C05/ops", json!({"depth": tier.pick(5, 7), "flavour": 1}), 0, tier.pick(40, 600)));
     Check {
         also_rel: false,
         property: "C05",
@@ -184,7 +186,7 @@ pub fn scenario(name: &str, params: &Value) -> Scenario {
         let mut sys = Sys::new("C05", &name, chz);
         sys.params = params.clone();
         sys.m.check_client_acks = false;
-        sys.bring_up(vec![]);
+        sys.bring_up_fl(vec![], params["flavour"].as_u64().unwrap_or(0));
         let specs = op_specs();
         for _ in 0..depth {
             if sys.dead {
